@@ -39,6 +39,12 @@ def fnvalue_program(rng):
         m = rng.pick(names)
         same = [x for x in names if ar.get(x) == ar.get(n)]      # re-assignment keeps the arity of a name (calls stay well-formed)
         if c in (0, 2, 11):
+            # the `gebruikN` functions call other names: they are never the SOURCE or TARGET of a re-assignment or swap, so no name
+            # a `gebruikN` body calls can come to denote a `gebruikN` function — re-assignment never builds an accidental unbounded
+            # recursion (which the interpreter answers with its stack limit only after a collection per level: minutes, not a hang)
+            same = [x for x in same if not x.startswith("gebruik")] or [n]
+            if n.startswith("gebruik"):
+                c = 12
             m = rng.pick(same)
         if c == 0:
             lines.append("%s = %s;" % (n, m))
